@@ -715,7 +715,12 @@ class DistinctWorkers(ResourceConstraint):
         # then add a constraint to ensure they are distinct.
         for res_work_1 in self.select_workers_1._selection_dict:
             if res_work_1 in self.select_workers_2._selection_dict:
+                # a common worker cannot be selected by both (it may be selected by none)
                 self.set_z3_assertions(
-                    self.select_workers_1._selection_dict[res_work_1]
-                    != self.select_workers_2._selection_dict[res_work_1]
+                    z3.Not(
+                        z3.And(
+                            self.select_workers_1._selection_dict[res_work_1],
+                            self.select_workers_2._selection_dict[res_work_1],
+                        )
+                    )
                 )
